@@ -31,7 +31,7 @@ from vf.fakes import FakeFrame
 import rtflite as rtf
 from rtflite.services.encoding_service import RTFEncodingService
 SVC = RTFEncodingService()
-COLS = ["a", "b", "c", "d"]
+COLS = ["q", "b", "z", "a"]          # deliberately not in alphabetical order
 '''
 
 HDR_CELL = r'''
@@ -60,9 +60,9 @@ def cell_texts(out):
     res = []
     for x in out:
         if "\\pard" in x and x.endswith("\\cell"):
-            i = x.index("{\\f0 ")
+            i = x.index(" ", x.index("{\\f0")) + 1      # text starts after the delimiter space of the last format word
             j = x.rindex("}\\cell")
-            res.append(x[i + 5:j])
+            res.append(x[i:j])
     return res
 '''
 
@@ -155,8 +155,8 @@ def build(tier, seed):
         pre=["not (pa and sa)", "not (pb and sb)", "(pa or pb or pc) or not new_page"],
         header=HDR_PREP, timeout=T,
         body=r'''
-    page_by = [c for c, f in zip("abc", (pa, pb, pc)) if f] or None
-    subline_by = [c for c, f in zip("abd", (sa, sb, sd)) if f] or None
+    page_by = [c for c, f in zip(COLS[:3], (pa, pb, pc)) if f] or None
+    subline_by = [c for c, f in zip([COLS[0], COLS[1], COLS[3]], (sa, sb, sd)) if f] or None
     body = rtf.RTFBody(page_by=page_by, subline_by=subline_by, new_page=True if new_page else False,
                        pageby_row="first_row" if first_row else "column")
     df = FakeFrame({c: [c + "0", c + "1"] for c in COLS})
@@ -172,7 +172,8 @@ def build(tier, seed):
 ''',
         funcs=["rtflite.services.encoding_service:RTFEncodingService.prepare_dataframe_for_body_encoding"],
         stubs=["data frame -> FakeFrame (clone, select, columns)"],
-        bounds="4 columns; page_by subset of {a,b,c}, subline_by subset of {a,b,d} (disjoint), new_page, pageby_row symbolic",
+        bounds="4 columns (names not in alphabetical order); page_by subset of the first three, subline_by subset of columns 1, 2, 4 "
+               "(disjoint), new_page, pageby_row symbolic",
         what="columns consumed by subline_by, and by page_by when shown as spanning rows, are the only ones removed; the "
              "others keep their order and values"))
     # O6: null -> empty, other values via str()
@@ -194,6 +195,26 @@ def build(tier, seed):
                        "text_convert off" % (lead, trail),
                 what="a null is rendered as the empty string, any other value as its own text with surrounding blanks "
                      "preserved, cells in column order"))
+    # O6b: a segment rendered with a row offset (after an in-page group heading) shows its own rows, in order
+    obs.append(Ob(
+        oid="O6b.segment_rows", sig="off: int, h: int, c: str", pre=["0 <= off <= 3", "1 <= h <= 3", "len(c) == 1 and 'a' <= c <= 'z'"],
+        header=HDR_CELL + "from vf import minipl\nfrom vf.hlib import concrete_int\nBODY5 = rtf.RTFBody(text_convert=False, text_format=[['b'], [''], ['i'], [''], ['b'], ['']])\n",
+        timeout=T,
+        body=r'''
+    o, hh = concrete_int(off, 0, 3), concrete_int(h, 1, 3)
+    with minipl.substituted(attributes):
+        seg = minipl.Frame({"x": [c + str(o + i) for i in range(hh)], "y": ["y" + str(o + i) for i in range(hh)]})
+        out = with_tc(lambda: attributes.TableAttributes._encode(BODY5, seg, [1.0, 2.0], row_offset=o))
+    want = []
+    for i in range(hh):
+        want += [c + str(o + i), "y" + str(o + i)]
+    return cell_texts(out) == want
+''',
+        funcs=["rtflite.attributes:TableAttributes._encode"],
+        stubs=["segment frame -> vf.minipl frame (accepted as pl.DataFrame by the attribute helpers)", "TextContent -> model_construct"],
+        bounds="a segment of 1..3 rows encoded with row_offset 0..3 (a 6-row per-row format matrix in the attributes), one symbolic letter in "
+               "the cell texts",
+        what="the cells of a segment carry the segment's own values in row and column order whatever the segment's offset in the page"))
     obs.append(glue_ob("O7.section_glue", T))
     # O8: the three paginate() methods cut pages as contiguous row slices of the ORIGINAL frame (polars model)
     for which, sname in ((0, "default"), (1, "page_by"), (2, "subline")):
